@@ -24,7 +24,7 @@ func init() {
 }
 
 func runC14(ctx *Ctx) {
-	n := ctx.N(1500, 30000)
+	n := ctx.N(4000, 40000)
 	for _, t := range ctx.types() {
 		t := t
 		ctx.CheckRapid(string(t.Name), n, func(rt *rapid.T) *Case {
